@@ -30,7 +30,34 @@
            on every message whose two floats survive `toBits/ofBits` (every Go float does): same refusal
            (`errOf`), or error nil and the identity of the result is the model's `MapId`.
 
-  PART 2 — sketch level: see the second half of the file.
+  PART 2 — sketch level (`DDSketch.ToProto`, `FromProtoWithStoreProvider`; generic over the interfaces, the
+  protobuf side of which are the classes `GoPb.MapPbI`, `GoPb.StorePbI`).
+  * instances defined HERE from the model: `instMapPbI : MapPbI MapEnv` (`ToProto` = `Proto.mappingToProto` of the
+    identity, embedded; `FromProto` = `Proto.mappingFromProto` on the projected message, the errors through `errOf`,
+    the resulting object `envOf id` — defaults but the identity, the convention of `GenSketch.mapDecode`),
+    `instStorePbI : StorePbI Store` (`Proto.storeToProto`, embedded; the empty message where the model panics).
+    `goOfPb*` embed the model's messages (bit patterns) into the Go messages, `pb*OfGo` project back.
+    `instance_FromProto_agrees / instance_ToProto_agrees`: these class methods agree with the REGENERATED
+    `mapping.FromProto` / `ToProto` of Part 1 (same error, same identity; same message).
+  * `ToProto_fields` (any instances): three non-nil sub-messages and the zero count.
+    `ToProto_model`: `DDSketch.ToProto (toGen env s) = goOfPbSketch m` when `Proto.toProto s = some m`,
+    `s.mapping = some env.id`, and `s.zero` survives `toBits/ofBits`; `ToProto_zero_bits` without that hypothesis.
+  * `FromProto_eq` (any instances, any provider, oracle, fuel): provider, positive message, provider, negative
+    message, mapping — `store.MergeWithProto` (generic, `GenProtoStore.mergeWithProto_eq_fold`) cannot fail, the
+    only error is the one of `mapping.FromProto` (returned AFTER both stores are built, with the nil sketch), the
+    only panic the provider's (`FromProto_panic`); no fuel is consumed.
+  * `MergeWithProto_model`: the generic `MergeWithProto` on a store of the model (`instance : StoreI Store`) with the
+    ASCENDING oracle = the model's `Proto.mergeWithProto` on the projected message, wherever the model answers
+    `some` (message `WF`, floats surviving `toBits/ofBits`), every fuel.  The model enumerates `binCounts` by
+    ascending key; Go's `range` order is unspecified: for another oracle the two stores hold the same bins
+    (`Props/C09`, `Lift3`) but need not be the same structure — not claimed here.
+  * `FromProto_sketch_model`: `FromProtoWithStoreProvider … pb (provider k)` against `Proto.fromProto k` on the
+    projected message, under `MsgOK pb`: model `none` nothing claimed / model refusal `x` ⇒ `(nilSketch, errOf x)` /
+    model `s` ⇒ `(toGen (envOf id) s, nil)`.  `exMsg_run`: a run through the `.ok` branch.
+  * NIL SUB-MESSAGES.  `FromProto_nil_stores`: a nil `PositiveValues` / `NegativeValues` is skipped — no error, no
+    panic, the store is the provider's fresh store; the model does the same (`modelSide k none`): NO disagreement.
+    `FromProto_nil_mapping`: a nil `Mapping` is the error "cannot create IndexMapping from nil protobuf index
+    mapping", model `.nilMapping`: no disagreement.  No fuel bound anywhere in this file (no `for` with a condition).
 -/
 import DDS.Generated.CodeMappingProto
 import DDS.Generated.CodeMappingFromProto
@@ -732,6 +759,234 @@ theorem MergeWithProto_model (fuel : Nat) (st st' : Store) (pb : GoPb.Store F64)
     refine foldlM_some_foldl _ _ pb.ContiguousBinCounts.zipIdx ?_ s1 st' h
     intro x hx s s' hs
     exact add_step s s' _ x.1 (hb.2 x.1 (List.fst_mem_of_mem_zipIdx hx)) hs
+
+/-- the core of `MergeWithProto_model`, on the fold -/
+theorem addAll_model (st st' : Store) (pb : GoPb.Store F64) (hwf : pb.WF) (hb : StoreBitsOK pb)
+    (h : Proto.mergeWithProto st (pbStoreOfGo pb) = some st') :
+    GenProtoStore.addAll st (msgCalls MapOrder.ascending pb) = st' := by
+  have := MergeWithProto_model 0 st st' pb hwf hb h
+  rw [mergeWithProto_eq_fold] at this
+  injection this
+
+/-! ### `FromProtoWithStoreProvider` on the model's instances is the model's `fromProto` -/
+
+/-- one side of the model's `fromProto`: a fresh store, the sub-message merged into it if there is one -/
+def modelSide (k : StoreKind) : Option Proto.PbStore → Option Store
+  | some pb => Proto.mergeWithProto (Store.new k) pb
+  | none => some (Store.new k)
+
+theorem fromProto_eq (k : StoreKind) (m : Proto.PbSketch) :
+    Proto.fromProto k m =
+      (modelSide k m.pos).bind (fun p => (modelSide k m.neg).bind (fun n =>
+        match Proto.mappingFromProto m.mapping with
+        | .error e => some (.error e)
+        | .ok id => some (.ok { mapping := some id, pos := p, neg := n, zero := bitsF m.zero }))) := by
+  unfold Proto.fromProto modelSide
+  cases m.pos <;> cases m.neg <;> rfl
+
+/-- the hypotheses on a sketch message: sub-messages well formed, floats surviving `toBits / ofBits` (nothing is
+    asked of the mapping sub-message) -/
+structure MsgOK (pb : GoPb.DDSketch F64) : Prop where
+  pos : ∀ m, pb.PositiveValues = some m → m.WF ∧ StoreBitsOK m
+  neg : ∀ m, pb.NegativeValues = some m → m.WF ∧ StoreBitsOK m
+  zero : F64.ofBits (F64.toBits pb.ZeroCount) = pb.ZeroCount
+
+theorem mergeOpt_model (k : StoreKind) (m? : Option (GoPb.Store F64))
+    (hok : ∀ m, m? = some m → m.WF ∧ StoreBitsOK m) (st' : Store)
+    (h : modelSide k (m?.map pbStoreOfGo) = some st') :
+    mergeOpt MapOrder.ascending (Store.new k) m? = st' := by
+  cases m? with
+  | none => injection h
+  | some m => exact addAll_model _ _ m (hok m rfl).1 (hok m rfl).2 h
+
+/-- the mapping object `FromProto` of the instance builds for an identity -/
+def envOf (id : MapId) : MapEnv := { (default : MapEnv) with id := id }
+
+/-- **`FromProtoWithStoreProvider` (generated, over the model's instances, provider of kind `k`, ascending oracle)
+    is the model's `Proto.fromProto k`** on the projected message, for every fuel:
+      model `none` (a store panics / a weight is not finite): nothing claimed;
+      model refusal `x` (nil mapping, unsupported interpolation, `gamma ≤ 1`): the nil sketch and the error `errOf x`
+        — AFTER both stores have been built, as in Go;
+      model `s`: exactly `toGen (envOf id) s`, error nil.
+    A nil `PositiveValues` / `NegativeValues` is NOT an error and not a panic, on both sides: the store stays empty. -/
+theorem FromProto_sketch_model (fuel : Nat) (k : StoreKind) (pb : GoPb.DDSketch F64) (hok : MsgOK pb) :
+    match Proto.fromProto k (pbSketchOfGo pb) with
+    | none => True
+    | some (.error x) =>
+        FromProtoWithStoreProvider (M := MapEnv) fuel MapOrder.ascending pb (provider k) = .ok (nilSketch, errOf x)
+    | some (.ok s) => ∃ id, s.mapping = some id ∧
+        FromProtoWithStoreProvider (M := MapEnv) fuel MapOrder.ascending pb (provider k) =
+          .ok (toGen (envOf id) s, GoErr.nil) := by
+  rw [fromProto_eq, FromProto_eq]
+  simp only [provider, Res.bind_ok]
+  have hP : (pbSketchOfGo pb).pos = pb.PositiveValues.map pbStoreOfGo := rfl
+  have hN : (pbSketchOfGo pb).neg = pb.NegativeValues.map pbStoreOfGo := rfl
+  have hM : (pbSketchOfGo pb).mapping = pb.Mapping.map pbOfGo := rfl
+  have hI : GoPb.MapPbI.FromProto (M := MapEnv) pb.Mapping = mapFromProto pb.Mapping := rfl
+  rw [hP, hN, hM, hI]
+  cases hp : modelSide k (pb.PositiveValues.map pbStoreOfGo) with
+  | none => trivial
+  | some p =>
+    cases hn : modelSide k (pb.NegativeValues.map pbStoreOfGo) with
+    | none => trivial
+    | some n =>
+      simp only [Option.bind_some]
+      rw [mergeOpt_model k _ hok.pos p hp, mergeOpt_model k _ hok.neg n hn]
+      unfold mapFromProto
+      cases hmf : Proto.mappingFromProto (pb.Mapping.map pbOfGo) with
+      | error x =>
+        have : (errOf x != GoErr.nil) = true := by simpa using errOf_ne_nil x
+        simp only [this, if_true]
+      | ok id =>
+        refine ⟨id, rfl, ?_⟩
+        have : (GoErr.nil != GoErr.nil) = false := by decide
+        simp only [this, Bool.false_eq_true, if_false]
+        have hz : bitsF (pbSketchOfGo pb).zero = pb.ZeroCount := bitsF_f64bits _ hok.zero
+        rw [hz]
+        rfl
+
+/-- **nil store sub-messages**: with `PositiveValues = nil` and `NegativeValues = nil` the generated function
+    neither fails nor panics; both stores are the provider's fresh stores (any instances, any provider that
+    answers, any oracle, any fuel) — the model's `fromProto` does the same (`modelSide k none = some (Store.new k)`) -/
+theorem FromProto_nil_stores {M S : Type} [MapI M] [StoreI S] [Inhabited M] [Inhabited S] [GoPb.MapPbI M]
+    [GoPb.StorePbI S] (fuel : Nat) (ord : MapOrder) (mp : Option (GoPb.IndexMapping F64)) (z : F64)
+    (p : Unit → Res S) (a : S) (hp : p () = .ok a) (he : (GoPb.MapPbI.FromProto (M := M) mp).2 = GoErr.nil) :
+    FromProtoWithStoreProvider (M := M) fuel ord
+        { Mapping := mp, PositiveValues := none, NegativeValues := none, ZeroCount := z } p =
+      .ok ({ IndexMapping := (GoPb.MapPbI.FromProto (M := M) mp).1, positiveValueStore := a,
+             negativeValueStore := a, zeroCount := z }, GoErr.nil) := by
+  rw [FromProto_eq, hp]
+  simp only [Res.bind_ok, he]
+  rfl
+
+/-- **nil mapping sub-message**: the error of `mapping.FromProto`, the nil sketch — whatever the store
+    sub-messages hold (they are merged first, and `MergeWithProto` cannot fail) -/
+theorem FromProto_nil_mapping (fuel : Nat) (ord : MapOrder) (k : StoreKind)
+    (pos neg : Option (GoPb.Store F64)) (z : F64) :
+    FromProtoWithStoreProvider (M := MapEnv) fuel ord
+        { Mapping := none, PositiveValues := pos, NegativeValues := neg, ZeroCount := z } (provider k) =
+      .ok (nilSketch, errNilMapping) := by
+  rw [FromProto_eq]
+  rfl
+
+/-- a panicking provider is the only panic -/
+theorem FromProto_panic {M S : Type} [MapI M] [StoreI S] [Inhabited M] [Inhabited S] [GoPb.MapPbI M]
+    [GoPb.StorePbI S] (fuel : Nat) (ord : MapOrder) (pb : GoPb.DDSketch F64) (p : Unit → Res S)
+    (hp : p () = .panic) : FromProtoWithStoreProvider (M := M) fuel ord pb p = .panic := by
+  rw [FromProto_eq, hp]; rfl
+
+/-! ### the instance's `FromProto` against the regenerated `mapping.FromProto` -/
+
+/-- the class method `MapPbI.FromProto` of `MapEnv` (defined from the model) and the REGENERATED `mapping.FromProto`
+    return the same error, and on success the same identity — for every instance of the float operations with the
+    model's guard, every message whose floats survive `toBits / ofBits` -/
+theorem instance_FromProto_agrees [MOps F64] (hle : LeOne) (fuel : Nat) (pm? : Option (GoPb.IndexMapping F64))
+    (hb : ∀ pm, pm? = some pm → F64.ofBits (F64.toBits pm.Gamma) = pm.Gamma ∧
+      F64.ofBits (F64.toBits pm.IndexOffset) = pm.IndexOffset) :
+    ∃ r, FromProto fuel pm? = .ok (r, (GoPb.MapPbI.FromProto (M := MapEnv) pm?).2) ∧
+      ((GoPb.MapPbI.FromProto (M := MapEnv) pm?).2 = GoErr.nil →
+        idOf r = some (GoPb.MapPbI.FromProto (M := MapEnv) pm?).1.id) := by
+  obtain ⟨r, e, h, hm⟩ := FromProto_model hle fuel pm? hb
+  have hI : GoPb.MapPbI.FromProto (M := MapEnv) pm? = mapFromProto pm? := rfl
+  rw [hI]
+  unfold mapFromProto
+  cases hx : Proto.mappingFromProto (pm?.map pbOfGo) with
+  | error x =>
+    rw [hx] at hm
+    simp only at hm
+    subst hm
+    exact ⟨r, h, fun hn => absurd hn (errOf_ne_nil x)⟩
+  | ok id =>
+    rw [hx] at hm
+    obtain ⟨he, hid⟩ := hm
+    subst he
+    exact ⟨r, h, fun _ => hid⟩
+
+/-- the class method `MapPbI.ToProto` of `MapEnv` and the regenerated `ToProto` of the mapping of the same
+    identity: the same message (parameters surviving `toBits / ofBits`) -/
+theorem instance_ToProto_agrees [MOps F64] (e : MapEnv)
+    (hg : F64.ofBits (F64.toBits e.id.gamma) = e.id.gamma)
+    (ho : F64.ofBits (F64.toBits e.id.indexOffset) = e.id.indexOffset) :
+    (∀ m : LogarithmicMapping F64, idLog m = e.id → LogarithmicMapping.ToProto m = GoPb.MapPbI.ToProto e) ∧
+    (∀ m : LinearlyInterpolatedMapping F64, idLin m = e.id →
+      LinearlyInterpolatedMapping.ToProto m = GoPb.MapPbI.ToProto e) ∧
+    (∀ m : CubicallyInterpolatedMapping F64, idCub m = e.id →
+      CubicallyInterpolatedMapping.ToProto m = GoPb.MapPbI.ToProto e) := by
+  have hI : GoPb.MapPbI.ToProto e = goOfPbMapping (Proto.mappingToProto e.id) := rfl
+  rw [hI]
+  refine ⟨fun m h => ?_, fun m h => ?_, fun m h => ?_⟩ <;>
+  · rw [← h] at hg ho ⊢
+    simp only [goOfPbMapping, Proto.mappingToProto, bitsF_f64bits _ hg, bitsF_f64bits _ ho]
+    rfl
+
+/-! ### the hypothesis `LeOne` is satisfiable -/
+
+/-- an instance of the operations with the model's comparison (the functions that play no role here are
+    placeholders) -/
+@[reducible] def witnessOps : MOps F64 where
+  add := F64.add
+  sub := F64.sub
+  mul := F64.mul
+  div := F64.div
+  neg := F64.neg
+  ofInt n := .fin n
+  ofRat q := .fin q
+  lt := F64.lt
+  le := F64.le
+  log := id
+  exp := id
+  log2 := id
+  exp2 := id
+  pow a _ := a
+  cbrt := id
+  sqrt := id
+  floor := id
+  trunc _ := 0
+  exponentOf := id
+  significandPlusOne := id
+  buildFloat _ x := x
+  ln2 := .fin 1
+  expOverflow := .fin 1
+  minNormal := .fin 1
+
+example : @LeOne witnessOps := fun _ => rfl
+
+/-! ### a run through the `.ok` branch -/
+
+/-- a message with a cubic mapping of `gamma = 2`, no store sub-messages -/
+def exMsg : GoPb.DDSketch F64 :=
+  { Mapping := some { Gamma := .fin 2, IndexOffset := .fin 0, Interpolation := GoPb.IndexMapping_CUBIC },
+    PositiveValues := none, NegativeValues := none, ZeroCount := .fin 0 }
+
+def exSketch : Sketch := { mapping := some ⟨.cubic, .fin 2, .fin 0⟩, pos := .sp [], neg := .sp [], zero := .fin 0 }
+
+theorem bits_two : F64.ofBits (F64.toBits (.fin 2)) = .fin 2 := F64.toBits_ofBits_rep 2 (by decide +kernel)
+theorem bits_zero : F64.ofBits (F64.toBits (.fin 0)) = .fin 0 := F64.toBits_ofBits_rep 0 (by decide +kernel)
+
+theorem exMsg_ok : MsgOK exMsg := ⟨fun _ h => (by cases h), fun _ h => (by cases h), bits_zero⟩
+
+theorem exMsg_model : Proto.fromProto .sparse (pbSketchOfGo exMsg) = some (.ok exSketch) := by
+  rw [fromProto_eq]
+  have hm : Proto.mappingFromProto (pbSketchOfGo exMsg).mapping = .ok ⟨.cubic, .fin 2, .fin 0⟩ := by
+    show Proto.mappingFromProto (some (pbOfGo _)) = _
+    rw [model_supported _ .cubic rfl bits_two bits_zero]
+    show (if F64.le (.fin 2) (.fin 1) = true then _ else _) = _
+    rw [MapId.le_fin]
+    rfl
+  have hz : bitsF (pbSketchOfGo exMsg).zero = .fin 0 := bitsF_f64bits _ bits_zero
+  rw [hm, hz]
+  rfl
+
+/-- the generated function on that message, for every fuel: the model's sketch -/
+theorem exMsg_run (fuel : Nat) :
+    FromProtoWithStoreProvider (M := MapEnv) fuel MapOrder.ascending exMsg (provider .sparse) =
+      .ok (toGen (envOf ⟨.cubic, .fin 2, .fin 0⟩) exSketch, GoErr.nil) := by
+  have := FromProto_sketch_model fuel .sparse exMsg exMsg_ok
+  rw [exMsg_model] at this
+  obtain ⟨id, hid, h⟩ := this
+  injection hid with hid
+  subst hid
+  exact h
 
 end sketch
 
